@@ -106,6 +106,12 @@ def events_for(rng, thorough):
     for (n1, *q1), (n2, *q2) in zip(pyth[:80], pyth[80:160]):
         yield "vvmul_n", {"a": tuple(q1), "b": tuple(q2)}, 1.0 / (n1 * n2), \
             (lambda q1=q1, q2=q2, n1=n1, n2=n2: b.vvmul(Q(q1[1:]) / n1, Q(q2[1:]) / n2)), "base.vvmul"
+    # inner product of UNIT quaternion objects (Pythagorean quadruples; negative products included: q1 with -q2)
+    for (n1, *q1), (n2, *q2) in zip(pyth[:40], pyth[40:80]):
+        for sg in (1, -1):
+            q2s = tuple(sg * c for c in q2)
+            yield "inner", {"a": tuple(q1), "b": q2s}, 1.0 / (n1 * n2), \
+                (lambda q1=q1, q2s=q2s, n1=n1, n2=n2: [UnitQuaternion(Q(q1) / n1).inner(UnitQuaternion(Q(q2s) / n2))]), "UnitQuaternion.inner"
     # dual quaternions
     b8 = [tuple(1 if i == k else 0 for i in range(8)) for k in range(8)]
     r8 = [tuple(rng.randint(-50, 50) for _ in range(8)) for _ in range(20 if thorough else 8)]
@@ -321,6 +327,10 @@ def dual_norm(j, rng, thorough):
     import gamma
     r = run_tlc("MC_Group", "Group_lattice3", timeout=300)
     hs = [e["post"] for e in r.json][:: (1 if thorough else 9)]
+    # screw motions with a translation ALONG the rotation axis (non-zero pitch) from Screw.tla
+    rsw = run_tlc("MC_Screw", "Screw", tag="C12_Screw", timeout=600)
+    sw = [e["m"] for e in rsw.json if e["c"]["k"] == "screw3" and e["c"]["an"] != 0]
+    hs += sw[:: (5 if thorough else 40)]
     for h in hs:
         for sigma in (1e-3, 1.0, 1e3, 1e6):
             T = gamma.T4(h, sigma)
